@@ -244,13 +244,35 @@ func RunRefDeal(c RefDealCase) (res RefDealResult) {
 			return
 		}
 	}
+	if c.Shape == "own-root" {
+		// a rushing dealer: it has seen the shares the real dealers sent to it and deals a polynomial whose value at its own point
+		// is minus their sum; the summed share of its own index is zero, its public key share the identity key
+		sum := new(big.Int)
+		for _, m := range real {
+			for _, e := range procs[m].emis {
+				if !e.bcast && e.dest == c.Dealer && len(e.data) == 33 {
+					sum.Add(sum, new(big.Int).SetBytes(e.data[1:]))
+				}
+			}
+		}
+		x := big.NewInt(int64(c.Dealer + 1))
+		rest := new(big.Int)
+		for k := c.T; k >= 1; k-- { // Horner over a_1..a_t, times x
+			rest.Add(rest, poly.coef[k])
+			rest.Mul(rest, x)
+			rest.Mod(rest, ref.R)
+		}
+		poly.coef[0] = new(big.Int).Mod(new(big.Int).Neg(new(big.Int).Add(sum, rest)), ref.R)
+		honestShape = poly.coef[0].Sign() != 0
+		sharePoly = poly
+	}
 	// does some real receiver get a zero share?  Then the dealing is not acceptable to it (a zero share is malformed): skip
 	for _, m := range real {
 		if sharePoly.eval(int64(m+1)).Sign() == 0 {
 			return
 		}
 	}
-	if byzantine { // the shares must really be off the committed polynomial at every real receiver
+	if byzantine && c.Relation != "two-answers-before-vector" { // the shares must really be off the committed polynomial at every real receiver
 		for _, m := range real {
 			if sharePoly.eval(int64(m+1)).Cmp(poly.eval(int64(m+1))) == 0 {
 				return
@@ -270,20 +292,37 @@ func RunRefDeal(c RefDealCase) (res RefDealResult) {
 		}
 	}
 	vectors := map[int][]byte{c.Dealer: poly.vectorMsg()} // dealer -> its broadcast vector
-	// the reference dealer's messages, in the chosen order
-	for k, m := range real {
-		first, second := true, false // vector first
-		if c.Order == 1 || (c.Order == 2 && k%2 == 1) {
-			first, second = false, true
+	if c.Relation == "garbage-after-identity" {
+		// a malformed vector: A_0, the identity, then 96 bytes that are no point encoding (x >= p); every share is a_0, the constant
+		// polynomial a reader that stops validating after the identity would see
+		if c.T < 2 {
+			return
 		}
-		if first {
-			hand(m, c.Dealer, true, vectors[c.Dealer])
-			hand(m, c.Dealer, false, sharePoly.shareMsg(m))
+		v := []byte{1}
+		v = append(v, g2Bytes(ref.G2Gen.Mul(poly.coef[0]))...)
+		v = append(v, g2Bytes(ref.G2{Inf: true})...)
+		for k := 2; k <= c.T; k++ {
+			junk := bytes.Repeat([]byte{0xFF}, 96)
+			junk[0] = 0x9F // compressed, not infinity, x far above p
+			v = append(v, junk...)
 		}
-		if second {
-			hand(m, c.Dealer, false, sharePoly.shareMsg(m))
-			hand(m, c.Dealer, true, vectors[c.Dealer])
+		vectors[c.Dealer] = v
+		cst := make([]*big.Int, c.T+1)
+		for i := range cst {
+			cst[i] = new(big.Int)
 		}
+		cst[0] = new(big.Int).Set(poly.coef[0])
+		sharePoly = refPoly{cst}
+	}
+	wrongAnswerTo := -1
+	if c.Relation == "two-answers-before-vector" {
+		// two receivers get a malformed share and complain; the dealer answers both BEFORE broadcasting its vector, one answer right,
+		// one wrong; then the vector and the remaining (right) shares
+		if len(real) < 3 {
+			return
+		}
+		sharePoly = poly
+		wrongAnswerTo = real[1]
 	}
 	// the real participants' own dealing (Joint-Feldman) and whatever else they emit; the reference dealer answers complaints
 	// against it correctly (there should be none)
@@ -313,8 +352,12 @@ func RunRefDeal(c RefDealCase) (res RefDealResult) {
 								hand(r, s, true, e.data)
 							}
 						}
+						ans := sharePoly.answerMsg(s)
+						if s == wrongAnswerTo { // a well-formed scalar that is not the share
+							ans = append([]byte{3, byte(s)}, scalar32(new(big.Int).Mod(new(big.Int).Add(sharePoly.eval(int64(s+1)), big.NewInt(1)), ref.R))...)
+						}
 						for _, r := range real {
-							hand(r, c.Dealer, true, sharePoly.answerMsg(s))
+							hand(r, c.Dealer, true, ans)
 						}
 						continue
 					}
@@ -332,6 +375,34 @@ func RunRefDeal(c RefDealCase) (res RefDealResult) {
 			}
 			if !moved {
 				return
+			}
+		}
+	}
+	if c.Relation == "two-answers-before-vector" {
+		for _, m := range real[:2] {
+			hand(m, c.Dealer, false, append([]byte{0}, make([]byte, 31)...)) // a share of the wrong length
+		}
+		flush() // the two complaints go round, the dealer answers them (one answer wrong), all before its vector
+		for _, m := range real {
+			hand(m, c.Dealer, true, vectors[c.Dealer])
+		}
+		for _, m := range real[2:] {
+			hand(m, c.Dealer, false, sharePoly.shareMsg(m))
+		}
+	} else {
+		// the reference dealer's messages, in the chosen order
+		for k, m := range real {
+			first, second := true, false // vector first
+			if c.Order == 1 || (c.Order == 2 && k%2 == 1) {
+				first, second = false, true
+			}
+			if first {
+				hand(m, c.Dealer, true, vectors[c.Dealer])
+				hand(m, c.Dealer, false, sharePoly.shareMsg(m))
+			}
+			if second {
+				hand(m, c.Dealer, false, sharePoly.shareMsg(m))
+				hand(m, c.Dealer, true, vectors[c.Dealer])
 			}
 		}
 	}
@@ -367,10 +438,21 @@ func RunRefDeal(c RefDealCase) (res RefDealResult) {
 	}
 	dealerOut := len(real) > 0 && refDisq[real[0]]
 	if byzantine {
+		missed := false
 		for _, m := range real {
 			if !refDisq[m] {
-				add("C08", "BadDealerDisqualified", fmt.Sprintf("the dealer's shares and answers are off the polynomial its vector commits to (relation %s), yet participant %d does not disqualify it", c.Relation, m))
+				missed = true
+				add("C08", "BadDealerDisqualified", fmt.Sprintf("the dealer misbehaves (%s: vector, shares and answers do not belong to one polynomial), yet participant %d does not disqualify it", c.Relation, m))
 			}
+		}
+		if missed && c.Relation == "garbage-after-identity" {
+			// the vector is not even a list of points: there is nothing to compare keys with; who returns keys has accepted garbage
+			for _, m := range real {
+				if _, _, _, err := objs[m].End(); err == nil {
+					add("C07", "KeysShape", fmt.Sprintf("participant %d returns keys computed from a malformed verification vector", m))
+				}
+			}
+			return
 		}
 	}
 	// expected keys by reference: the sum over all dealers of the images of their broadcast vectors
